@@ -665,8 +665,9 @@ func genC08(c *Ctx) any {
 	}
 	if twins && r.Chance(3, 4) {
 		cs.Q.GroupBy = []S{"hc"}
-		if r.Chance(1, 3) {
-			cs.Q.GroupBy = append(GenGroupBy(r, si, 1, false), "hc")
+		if pre := GenGroupBy(r, si, 1, false); r.Chance(1, 3) && len(pre) == 1 && si.card[string(pre[0])]*si.card["hc"] <= 60000 {
+			// (the library refines level by level: groups so far x values of the next column bitmap fetches)
+			cs.Q.GroupBy = append(pre, "hc")
 		}
 	}
 	for i := 0; i < 3; i++ {
